@@ -81,6 +81,10 @@ def t_categories(rng, cspec, dspec):
 
 def t_shift(rng, cspec, dspec):
     k = float(rng.choice([1, 7, 64, 1000, -3, -250]))
+    integer_times = all(float(u[0]).is_integer() and float(u[1]).is_integer() for us in cspec["ann"].values() for u in us)
+    if integer_times and rng.random() < 0.5:
+        # integer times stay float32-exact up to 2**24: far translations must not matter either
+        k = float(rng.choice([2 ** 17, -2 ** 18, 10 ** 6, 2 ** 20, -2 ** 21, 3 * 10 ** 5]))
     return {"ann": {a: [[s + k, e + k, l] for s, e, l in us] for a, us in cspec["ann"].items()},
             "family": cspec.get("family")}, dspec, 1.0, {"shift": k}
 
@@ -118,7 +122,9 @@ def check_case(ctx, case):
         return
     c2spec, d2spec, factor, info = tr
     exact = case["family_exact"]
-    rel = 2e-5 if exact else 1e-3
+    # only the time transformations do arithmetic on the (float32) times: renamings and delta scaling leave every pair cost
+    # bit-identical up to summation order, whatever the family
+    rel = 2e-5 if (exact or tname in ("annotators", "categories", "delta")) else 1e-3
     try:
         d1, d2 = pool.get(dspec), pool.get(d2spec)
         c1, c2 = cases.build_continuum(cspec), cases.build_continuum(c2spec)
@@ -174,6 +180,16 @@ def run(ctx):
     dspecs += [{"kind": "positional", "delta": 1.0},
                {"kind": "combined", "alpha": 1.0, "beta": 1.0, "delta": 1.0, "pos": None, "cat": None}]
     names = list(TRANSFORMS)
+    # dense 3x15 continua under annotator renaming only: this is where a path-dependent solver result (early stop inside
+    # a gap, tie-breaking on column order) shows - about one such continuum in 40 under a 1 % gap (measured)
+    dense_d = [{"kind": "combined", "alpha": 1.0, "beta": 1.0, "delta": 1.0, "pos": None, "cat": None}, {"kind": "positional", "delta": 1.0}]
+    for i in range(ctx.scale(50, 600)):
+        fam = rng.choice(["dense", "dense", "longoverlap"])
+        cspec = cases.gen_continuum(rng, n_annot=3, sizes=[15] * 3, labels=cases.LABELS_SMALL, family=fam, names=cases.ANNOTATOR_NAMES[:3])
+        case = {"continuum": cspec, "dissim": dense_d[i % 2], "transform": "annotators", "family_exact": False, "t_seed": rng.randrange(2 ** 31)}
+        ctx.begin_case(case)
+        ctx.observe("transform", "annotators(dense 3x15 block)")
+        check_case(ctx, case)
     for i in range(ctx.scale(150, 5000)):
         if ctx.out_of_time():
             break
@@ -181,10 +197,14 @@ def run(ctx):
         labels = cases.dissim_labels(dspec) or cases.LABELS_SMALL
         n = rng.choice([2, 2, 3, 3, 4, 5])
         exact = rng.random() < 0.7
-        fam = rng.choice(["dyadic", "grid", "touching", "longoverlap", "tiny"]) if exact else rng.choice(["generic", "nested"])
+        fam = rng.choice(["dyadic", "grid", "touching", "longoverlap", "tiny", "mixeddur"]) if exact else rng.choice(["generic", "nested", "dense", "dense"])
         big = rng.random() < 0.35
         mx = MAXU[n] if big else max(2, MAXU[n] // 3)
-        cspec = cases.gen_continuum(rng, n_annot=n, max_units=mx, labels=labels, family=fam, min_total=2)
+        if fam == "dense":       # dense overlaps, >= 3 annotators: the solver has to branch, path-dependent early stops show
+            n = rng.choice([3, 3, 4, 5])
+            cspec = cases.gen_continuum(rng, n_annot=n, sizes=[{3: 15, 4: 7, 5: 5}[n]] * n, labels=labels, family="dense")
+        else:
+            cspec = cases.gen_continuum(rng, n_annot=n, max_units=mx, labels=labels, family=fam, min_total=2)
         tname = names[i % len(names)]
         case = {"continuum": cspec, "dissim": dspec, "transform": tname, "family_exact": exact, "t_seed": rng.randrange(2 ** 31)}
         if tname == "delta" and cases.spec_num_units(cspec) <= 16 and all(cspec["ann"].values()) and rng.random() < 0.6:
